@@ -4,7 +4,8 @@ class P(vlib.Prop):
     id = "C02"
     rule = ("stage c02: a corpus of hand-picked universes first (every known-finding replay C02-F1..F6, the shapes of repo_test.go: several providers "
             "with priorities, cycles, self-dependencies, ! conflicts, origin/installed-version preference, pinned repositories, all six operators, "
-            "install_if with several/chained/versioned triggers), then three generated streams of in-memory repository universes (3-8 names in the quick "
+            "install_if with several/chained/versioned triggers, a member excluded by another member's conflict entry and the locks of that result (C09-F6), a dependency with an "
+            "unknown operator), then three generated streams of in-memory repository universes (3-8 names in the quick "
             "tier, 3-12 in the thorough tier, 1-4 versions per name, 1-3 indexes some pinned, versioned and unversioned provides of virtual and real names, "
             "provider priorities, shared origins, cycles, ! conflicts, so: names, duplicates across repositories): (1) the envelope of c02_closed_partial by "
             "construction, (2) general universes, 35% with up to three install_if packages (single, double, versioned and chained triggers), (3) malformed: "
@@ -30,10 +31,14 @@ class P(vlib.Prop):
     level_text = ("Theorems c02_nodup, c02_members_from_universe, c02_failure_is_error, c02_termination, c02_no_panic hold for every universe, world, initial disqualification set and "
                   "every install_if schedule (unbounded) of an executable model of repo.go + filterPackages; c02_validator_decides proves the validator that is run on the "
                   "implementation's results; c02_closed is REFUTED by five kernel-checked witnesses (findings C02-F1..F5, each replayed on the real code) and "
-                  "c02_closed_partial proves the part that holds inside the envelope; the model is tied to the code by differential comparison of ordered install lists.")
+                  "c02_closed_partial proves that INSIDE the envelope (no install_if, no dependency on a self-provided name, one provider per name, version operators only on "
+                  "package names) a successful result is closed in the full sense of the Spec — all four clauses, the closure of the dependencies of every member included "
+                  "(invariant of getPackageDependencies over selected / dq / parents / the returned list, Proofs/ResolveClosure2.v); the model is tied to the code by differential "
+                  "comparison of ordered install lists.")
     level_note = ("trusted: Coq kernel, goextract (version tables/regexes), Go harness/printer; modelled not verified: the Go text of repo.go/version.go:filterPackages; "
-                  "dependency closure inside the envelope is checked per implementation output by the verified validator, not proved of the model; "
-                  "correspondence is differential testing, not proof")
+                  "dependency closure inside the envelope is proved of the model and, independently, checked per implementation output by the verified validator "
+                  "(any failure there is a VIOLATION); conflict entries (!name) are not requirements of Closed: a result may hold a package together with a member that excludes it "
+                  "(see C09-F6); correspondence is differential testing, not proof")
     design_ref = "DESIGN.md 7 C02, Appendix A.1"
     modelled_not_verified = ("newPkgResolver, filterPackages, comparePackages (compare==nil stages), bestPackage, constrain, disqualifyProviders, disqualifyConflicts, "
                              "conflictingVersion, pick, nextPackage, resolvePackage, getPackageDependencies, GetPackageWithDependencies, GetPackagesWithDependencies "
